@@ -27,6 +27,7 @@ FUNCTIONS['bddops'] = ['BDDNonTerminalNode.__invert__', 'BDDTerminalNode.__inver
 FUNCTIONS['bddops'] += ['BDDTerminalNode.__reset__', 'BDDTerminalNode.__new__']
 FUNCTIONS['bddops'] += ['BDDNode.restrict', 'OBDD.restrict', 'descendents', 'BDDNode.descendents', 'BDDNode.variables']
 FUNCTIONS['bddops'] += ['OBDD.__init__', 'OBDD.apply', 'OBDD.__and__', 'OBDD.__or__', 'OBDD.__xor__', 'OBDD.__invert__']
+FUNCTIONS['obddparse'] = ['parse_name', 'parse_binary_unary_op', 'parse_binary_op', 'parse_binary_binary_op', 'parse_binary_expr']
 PROPERTY_FUNCTIONS = {
     'C10': ['Parser.__call__'],
     'C02': ['LTL.modelcheck', 'LTL.modelcheck(text)', 'LNot', 'Not.get_equivalent_restricted_formula', 'Parser.__call__'],
@@ -35,6 +36,7 @@ PROPERTY_FUNCTIONS = {
     # the formula object the parser returns); the cross-checker agreement itself is bounded
     'C04': ['CTL.modelcheck(text)', 'LTL.modelcheck(text)', 'CTLS.modelcheck(text)', 'modelcheck', 'LTL.modelcheck', 'CTLS.modelcheck', 'Parser.__call__'],
     'C16': FUNCTIONS['bdd'],
+    'C18': FUNCTIONS['obddparse'] + ['OBDD.__init__', 'OBDD.__and__', 'OBDD.__or__', 'OBDD.__invert__', 'BDDTerminalNode.__new__', 'BDDNonTerminalNode.__new__'],
     'C17': FUNCTIONS['bddops'] + ['BDDNonTerminalNode.__new__', 'BDDNonTerminalNode.__reset__'],
     'C05': FUNCTIONS['rewrite'],
     # own functions + the callee contracts the labelling relies on directly (their owners C13/C14 verify the rest)
@@ -83,6 +85,13 @@ TRUSTED = {
             'TB8 (Bryant canonicity): "no two registered non-terminals share (var, low, high)" + reducedness + orderedness imply "equal function iff same root"; not proved here',
             'object.__new__(cls) returns a new object of the non-terminal class, registered nowhere',
             'the node constructor also maintains the GHOST denotation invariant used by C17 (vf/pyvc/contracts_bdd.py den_inv); BDDTerminalNode.__new__ is assumed'],
+    'C18': ['under proof: the five functions of the expression parser (parse_binary_expr, parse_binary_op, parse_binary_binary_op, parse_binary_unary_op, parse_name): the OBDD built from a Python ast '
+            'denotes value_of(ast) on every assignment, is a new OBDD over the given ordering, and SyntaxError is raised exactly for asts outside boolean_syntax; and/or/not and &,|,~ have the same value by the specification',
+            'SPECIFICATION (trusted): value_of = the documented meaning of a Boolean expression (`~` read as negation), boolean_syntax = the shapes the parser accepts; Python ast nodes are values of an uninterpreted sort with reader functions; '
+            'n-ary and/or are folds whose recursive clause is instantiated syntactically at the loop counter',
+            'ValueError / RuntimeError (a variable missing from the ordering: respect_ordering, not modelled) may be raised without the contract saying when',
+            'NOT under proof (bounded only): ast.parse and the lambda/argument handling (parse_function, parse_args, BinaryParser.parse), "lambda form equals expression form" as identical OBDDs (needs canonicity, TB8), '
+            'printing and its round trip'],
     'C17': ['denotation of a node = GHOST component written by sidecar ghost code at the exit of BDDNonTerminalNode.__reset__ (Shannon expansion of the children\'s denotations); '
             'ghost invariant: every constructed node\'s stored denotation is the expansion of its children\'s / its constant',
             'under proof for all nodes, operators, orderings and cache contents satisfying the cache invariant: __invert__ (both classes: complement), cache_restrict/compute_restrict (cofactor: den(res)(s) = den(f)(s[v:=b])), '
@@ -137,7 +146,7 @@ def build_engine(repo=None, timeout_ms=20000, seed=0):
         E.baseline_names = set()
     for k in contracts_graph.make():
         E.register(k, contracts_graph.FILE)
-    for modname in ('contracts_kripke', 'contracts_ctl', 'formula_sem', 'contracts_bdd', 'contracts_parser', 'contracts_ctls'):
+    for modname in ('contracts_kripke', 'contracts_ctl', 'formula_sem', 'contracts_bdd', 'contracts_obddparse', 'contracts_parser', 'contracts_ctls'):
         mod = __import__('vf.pyvc.' + modname, fromlist=['install'])
         mod.install(E)
     from . import contracts_ctl, formula_sem
